@@ -29,7 +29,13 @@ Failing(e) ==
           LET gs == {g \in 0 .. GMaxP : GapOKp(e.gap.u[1], e.gap.u[2], e.gap.gi + 1, g)}
               idx == e.n_pre
               accepted == \E x \in 1 .. Len(r) : r[x] = idx
-          IN IF gs = {} THEN {} ELSE
+              \* u so small that the gap exceeds GMaxP: u <= (1-p)^(GMaxP+1), then every item up to base + GMaxP is skipped
+              long == e.gap.u[1] * ((e.gap.gi + 1) ^ (GMaxP + 1)) <= e.gap.u[2] * ((e.gap.gi + 1 - KK) ^ (GMaxP + 1))
+          IN IF gs = {} THEN
+               (IF long THEN Cl("C05.gapSampling: no item is accepted before the gap drawn from the geometric law has passed (long gap)",
+                                idx <= e.gap.base + GMaxP => ~accepted)
+                ELSE {})
+             ELSE
              LET g == CHOOSE x \in gs : TRUE IN
              Cl("C05.gapSampling: accepted item is exactly base + g, g from the geometric law with p = k/(i+1)",
                 idx <= e.gap.base + g => (accepted <=> idx = e.gap.base + g))
